@@ -279,6 +279,10 @@ pub fn exec(ctx: &mut Ctx, case: &Case) {
                 Ok((a, c)) => {
                     verdict(ctx, "IriBuf", "from_vec", b, wi, a);
                     verdict(ctx, "IriRefBuf", "from_vec", b, wr, c);
+                    if let Ok(v) = iref::IriRefBuf::from_vec(b.to_vec()) { same(ctx, "IriRefBuf", "from_vec", b, v.as_bytes()); }
+                    if let Ok(v) = iref::IriBuf::from_vec(b.to_vec()) { same(ctx, "IriBuf", "from_vec", b, v.as_bytes()); }
+                    if let Err(e) = iref::IriRefBuf::from_vec(b.to_vec()) { same(ctx, "IriRefBuf", "from_vec (error payload)", b, &e.0); }
+                    if let Err(e) = iref::IriBuf::from_vec(b.to_vec()) { same(ctx, "IriBuf", "from_vec (error payload)", b, &e.0); }
                 }
                 Err(m) => ctx.fail("C14.panic", feats("IriBuf", "from_vec"), format!("panicked: {}", m)),
             }
@@ -308,6 +312,13 @@ pub fn generate(ctx: &mut Ctx) {
     for s in ["", "a", "s:", "s://h/p?q#f", "\u{e9}", "s:\u{e9}", "a:b", "80", "http", "[::1]", "u:p", "/a/b", "%41", "%", "\"", "\\", "a\nb", "\u{1f600}", "s:/\u{1f600}", "\u{0}", "s:\u{7f}"] {
         if ctx.mine(bi) {
             ctx.run(Case::new("text").arg(s));
+        }
+        bi += 1;
+    }
+    for s in ["\u{feff}http://example.org/a", "\u{feff}a/b", "\u{feff}", "s:\u{feff}", "a\u{3000}b", "s://h/\u{a0}?\u{2028}#\u{200b}"] {
+        if ctx.mine(bi) {
+            ctx.run(Case::new("text").arg(s));
+            ctx.run(Case::new("bytes").arg(s));
         }
         bi += 1;
     }
